@@ -17,10 +17,17 @@ Differential oracle over (trait configuration) x (value lattice):
             items are accepted by the member traits alone; items are the member
             results.
 
+* value-held  (history) the same differential with the trait installed as an
+            attribute that already holds a valid value, plus assignments judged
+            against the compiled validator asked directly on the same state;
+* enum-foreign-equal  enumerations whose items equal values of other types.
+
 See DESIGN.md section 4 / C03.  The value lattice lives in `_c03_lattice.py`.
 """
 import collections.abc
 import copy
+import decimal
+import fractions
 import numbers
 import operator
 import pickle
@@ -29,7 +36,7 @@ import types
 from traits.api import (
     Any, Array, Bool, Bytes, Callable, CBool, CBytes, CComplex, CFloat, CInt, Complex, CStr, CTrait,
     AdaptsTo, Dict, Either, Enum, Float, Instance, Int, List, Map, Module, Range, Set, Str, Supports,
-    This, Trait, TraitError, Tuple, Union,
+    This, Trait, TraitError, Tuple, Undefined, Union,
 )
 from traits.trait_handlers import TraitMap
 from traits.adaptation.api import (
@@ -64,10 +71,24 @@ META = {
              "random compounds (Either / Trait(...) of 2-4 members, Tuple-in-Either, Either-in-Tuple, "
              "nested Either, mixed fast/slow, and a stratum of nested compounds whose inner compound "
              "has List/Dict/Set/Array/int-Range/Union members without a C validator followed by outer "
-             "fast members accepting the same values differently) x the whole value lattice (~350 values: ints, floats incl. "
+             "fast members accepting the same values differently) x the whole value lattice (~370 values: ints, floats incl. "
              "NaNs/bounds, strings, subclasses, numpy scalars/arrays, hostile protocol objects, "
-             "containers, classes, callables) plus per-configuration derived tuples for Tuple "
-             "shapes. One oracle evaluation = one (configuration, value) pair judged by the C-vs-"
+             "containers, classes, callables, str-mixin enum / StrEnum members, objects with their own "
+             "__eq__, objects whose isinstance() verdict is individual: instances with / without the data "
+             "member of a runtime-checkable Protocol, with / without the flag a metaclass __instancecheck__ "
+             "reads, objects reporting another __class__) plus per-configuration derived tuples for Tuple "
+             "shapes. Stratum enum-foreign-equal: enumerations whose items are equal to values of another "
+             "exact type (str-subclass / numpy.str_ / str-mixin enum.Enum / StrEnum / IntEnum members, "
+             "equality proxies, case-folding __eq__, numeric twins 1.0|Decimal|Fraction|complex|bool, "
+             "tuple / bytes subclasses), stand-alone, in compounds, in Tuples and copied; the pairs where a "
+             "value is accepted through an item that is neither it nor of its exact type are counted "
+             "(enum_foreign-equal_*). Stratum value-held (history): every fast catalogue configuration and "
+             "the fixed compounds installed as attribute 'x' of an object (class trait / add_trait), a valid "
+             "value assigned (exact types that also have refused values first), then the sweep through "
+             "CTrait.validate(obj, 'x', v) vs the Python method on that state, and a random walk of "
+             "assignments obj.x = v judged against CTrait.validate on the same state (same decision, "
+             "stored value of the same exact type and equal); value-held_same-type_* count the candidates "
+             "that have exactly the type of the value held. One oracle evaluation = one (configuration, value) pair judged by the C-vs-"
              "Python differential, or by the compound / tuple law against the alternatives validated "
              "alone. distinct_nontrivial counts distinct (sub-check, trait kind, value class, "
              "C outcome, reference outcome) signatures; a pair is non-trivial when at least one side "
@@ -86,7 +107,16 @@ META = {
                   "map-mutated_discriminating_accepts": 75, "map-mutated_discriminating_rejects": 50,
                   "copied_specs": 200, "copied_pairs": 40000, "copied_specs/pickle": 100,
                   "copied_specs/copy": 20, "copied_specs/deepcopy": 20, "copied_specs/clone": 20,
-                  "copied_specs/add_trait": 40},
+                  "copied_specs/add_trait": 40,
+                  "enum_foreign-equal_pairs": 750, "enum_foreign-equal_accepts": 750,
+                  "enum_foreign-equal_accepts/str": 40, "enum_foreign-equal_accepts/int": 14,
+                  "enum_foreign-equal_accepts/float": 35,
+                  "value-held_specs": 70, "value-held_specs/class": 35, "value-held_specs/instance": 35,
+                  "value-held_histories": 130, "value-held_histories_of_split_type": 55,
+                  "value-held_pairs": 14000, "value-held_same-type_accepts": 1000,
+                  "value-held_same-type_rejects": 550, "value-held_same-type_rejects/Instance": 12,
+                  "value-held_assignments": 3000, "value-held_assign_accepts": 1200,
+                  "value-held_assign_rejects": 1600},
         "thorough": {"evaluations": 1000000, "fast_descriptor_specs": 2500, "both_accept": 350000,
                      "both_reject": 650000, "compound_law_evaluations": 850000,
                      "compound_accept_via_nonfirst": 180000, "compound_accept_via_slow": 8000,
@@ -98,7 +128,16 @@ META = {
                      "map-mutated_discriminating_accepts": 75, "map-mutated_discriminating_rejects": 50,
                      "copied_specs": 600, "copied_pairs": 200000, "copied_specs/pickle": 300,
                      "copied_specs/copy": 50, "copied_specs/deepcopy": 50, "copied_specs/clone": 50,
-                     "copied_specs/add_trait": 100},
+                     "copied_specs/add_trait": 100,
+                     "enum_foreign-equal_pairs": 3600, "enum_foreign-equal_accepts": 3600,
+                     "enum_foreign-equal_accepts/str": 250, "enum_foreign-equal_accepts/int": 100,
+                     "enum_foreign-equal_accepts/float": 230,
+                     "value-held_specs": 100, "value-held_specs/class": 50, "value-held_specs/instance": 50,
+                     "value-held_histories": 500, "value-held_histories_of_split_type": 280,
+                     "value-held_pairs": 180000, "value-held_same-type_accepts": 5000,
+                     "value-held_same-type_rejects": 2000, "value-held_same-type_rejects/Instance": 14,
+                     "value-held_assignments": 37000, "value-held_assign_accepts": 12000,
+                     "value-held_assign_rejects": 25000},
     },
     "assumptions": [
         "the handler's Python `validate` method is the specification of the fast path (the "
@@ -119,7 +158,10 @@ META = {
                       "protocols 0-5 / copy.copy / copy.deepcopy / CTrait.clone / add_trait of a pickled or "
                       "deep-copied trait; quick: 4 rotating modes and a class-representative value subset "
                       "per configuration, thorough: all 11 modes x whole lattice), suffix @copied:<how> "
-                      "unless the original trait shows the same disagreement",
+                      "unless the original trait shows the same disagreement; held:* (the configuration is "
+                      "an attribute of an object that holds a valid value of a chosen exact type; sweep and "
+                      "assignments on that state), suffix @value-held unless the stateless pair shows the "
+                      "same disagreement; assignments carry the sub-check assign@value-held",
     "exhaustive_parts": "every catalogue configuration and every fixed compound is run against "
                         "every lattice value (no sampling inside a configuration)",
 }
@@ -155,6 +197,8 @@ CLASSES = {
     "tuple": tuple, "list": list, "dict": dict, "bool": bool, "complex": complex,
     "I": LAT.I, "T": LAT.T, "Sized": collections.abc.Sized, "Real": numbers.Real,
     "Holder": LAT.Holder, "object": object, "bytes": bytes,
+    # classes whose isinstance() verdict is individual (not a function of type(value))
+    "Labelled": LAT.Labelled, "Open": LAT.Open,
 }
 PYTYPES = {"int": int, "float": float, "complex": complex, "str": str, "bool": bool,
            "bytes": bytes, "tuple": tuple, "list": list}
@@ -173,7 +217,29 @@ ENUMS = {
     "single": ("a",),
     "bools": (True, False),
     "ab": ("a", "b"),
+    # enumerations whose items are equal to values of another exact type
+    "items:str-subclass": (LAT.S("yes"), LAT.S("a")),
+    "items:np-str": (LAT.np.str_("a"), LAT.np.str_("12")),
+    "items:str-mixin-members": (list(LAT.Word),),
+    "items:str-mixin-class": (LAT.Word,),
+    "items:strenum-default+list": (LAT.Level.NO, [LAT.Level.NO, LAT.Level.TWELVE]),
+    "items:int-enum-members": (list(LAT.Num),),
+    "items:eq-proxy": (LAT.HashEq("yes"), LAT.HashEq(1)),
+    "items:own-eq": (LAT.Token("YES"), LAT.Token("nO"), LAT.Token("AB")),
+    "items:numeric-twins": (1.0, complex(2, 0), decimal.Decimal(3), fractions.Fraction(7), LAT.I(10), True),
+    "items:container-subclass": (LAT.T((1, 2)), LAT.B(b"a"), LAT.NT(1, "a")),
+    "items:mixed-foreign": (1, "one", LAT.Word.YES, None, LAT.S("ab"), LAT.np.float64(0.5)),
 }
+
+
+def enum_items(args):
+    """Items of a static enumeration built from these arguments (the documented
+    signatures: Enum(collection), Enum(default, collection), Enum(*items))."""
+    last = args[-1]
+    if len(args) <= 2 and not isinstance(last, (str, bytes, bytearray)) \
+            and isinstance(last, collections.abc.Iterable):
+        return tuple(last)
+    return tuple(args)
 MAPS = {
     "yesno": {"yes": 1, "no": 0, 1: 2},
     "keys": {None: 0, (1, 2): 1, 0.5: 2, "a": 3},
@@ -443,6 +509,7 @@ class Built(object):
         self.skip_bigidx = spec_has_bytes_cast(spec)
         self.pyv = python_method(self.handler, self.kind)
         self.py_ref = self.pyv is module_ref
+        self.enum_items = enum_items(ENUMS[spec[1]]) if spec[0] == "Enum" else None
         # a compound with a Module member has no meaningful Python method
         self.has_py = self.pyv is not None and (self.kind == "Module"
                                                 or not spec_mentions(spec, ("Module",)))
@@ -529,20 +596,23 @@ class Checker(object):
         self.twin = None       # copy stratum: the original the copy was made from
         self.twin_cache = {}
         self.dry = None        # set collecting keys while a baseline pair is evaluated
+        self.base_obj = self.obj   # the stateless holder (no attribute 'x')
+        self.held_type = None  # value-held stratum: exact type of the value the attribute holds
 
     def baseline_keys(self, vid, cls, v):
         """Keys the same pair yields on the original trait (copy stratum): a
         disagreement the original shows too is not caused by the copy."""
         keys = self.twin_cache.get(vid)
         if keys is None:
-            saved = (self.ctx, self.keytag, self.twin, self.hot)
+            saved = (self.ctx, self.keytag, self.twin, self.hot, self.obj, self.held_type)
             self.ctx, self.keytag, self.twin, self.hot = _NULL, "", None, None
+            self.obj, self.held_type = self.base_obj, None
             self.dry = set()
             try:
                 self.pair(saved[2], vid, cls, v)
             finally:
                 keys, self.dry = self.dry, None
-                self.ctx, self.keytag, self.twin, self.hot = saved
+                self.ctx, self.keytag, self.twin, self.hot, self.obj, self.held_type = saved
             self.twin_cache[vid] = keys
         return keys
 
@@ -552,13 +622,15 @@ class Checker(object):
             return
         tag = self.keytag
         if tag and self.twin is not None and key in self.baseline_keys(vid, cls, v):
+            self.ctx.count("%s_echo_of_stateless_disagreement" % tag.split(":")[0])
             tag = ""
-            self.ctx.count("copied_echo_of_stateless_disagreement")
         if tag:
             sub, rest = key.split("/", 1)
             key = "%s@%s/%s" % (sub, tag, rest)
         w = {"spec": b.spec, "history": self.keytag or None, "value_id": vid, "value_class": cls, "value": short(v, 80),
              "descriptor": short(descriptor_of(b.ct), 200)}
+        if self.obj is not self.base_obj:
+            w["held_value"] = short(self.obj.__dict__.get("x", "<nothing>"), 80)
         if extra:
             w.update(extra)
         self.ctx.violation(key, "%s: spec=%r value=%s [%s] %s"
@@ -576,6 +648,15 @@ class Checker(object):
         if b.members is not None:
             self.tuple_law(b, vid, cls, v, c)
         nontrivial = c[0] != "TE"
+        if b.enum_items is not None:
+            self.enum_observe(b, cls, v, c)
+        if self.held_type is not None and type(v) is self.held_type:
+            # the candidate has exactly the type of the value the attribute holds
+            how = "accepts" if c[0] == "ok" else "rejects"
+            ctx.count("value-held_same-type_pairs")
+            ctx.count("value-held_same-type_" + how)
+            ctx.count("value-held_same-type_%s/%s" % (how, b.spec[0]))
+            nontrivial = True
         if b.has_py:
             p = outcome(b.pyv, obj, v)
             ctx.count("ref_comparisons" if b.py_ref else "py_comparisons")
@@ -596,6 +677,65 @@ class Checker(object):
             rt = tclass(c[1]) if c[0] == "ok" else ""
             ctx.sig("diff", self.keytag, b.kind, fineclass(v), oname(c), rt, pn)
         return c
+
+    def enum_observe(self, b, cls, v, c):
+        """Counts the pairs in which an enumeration is asked about a value that is
+        equal to one of its items without being it or having its exact type."""
+        twin = None
+        for it in b.enum_items:
+            if it is v:
+                return
+            if twin is None and type(it) is not type(v):
+                try:
+                    if it == v:
+                        twin = it
+                except Exception:
+                    pass
+        if twin is None:
+            return
+        ctx = self.ctx
+        how = "accepts" if c[0] == "ok" else "rejects"
+        ctx.count("enum_foreign-equal_pairs")
+        ctx.count("enum_foreign-equal_" + how)
+        ctx.count("enum_foreign-equal_%s/%s" % (how, tclass(v)))
+        ctx.sig("enum-foreign-equal", self.keytag, tclass(v), tclass(twin), oname(c))
+
+    # ---- assignment under a history (value-held stratum) ---------------------
+    def assign(self, b, vid, cls, v):
+        """`obj.x = v` must decide like the compiled validator asked directly
+        about the same state, and store what that validator returns."""
+        ctx, obj = self.ctx, self.obj
+        cv = outcome(b.ct.validate, obj, v)
+        try:
+            setattr(obj, "x", v)
+            cs = ("ok", getattr(obj, "x"))
+        except TraitError:
+            cs = ("TE", None)
+        except Exception as e:  # noqa: BLE001 - classification of the outcome
+            cs = ("exc", type(e).__name__)
+        ctx.ev()
+        ctx.count("value-held_assignments")
+        if cs[0] == "ok":
+            self.held_type = type(obj.__dict__.get("x", cs[1]))
+        if cv[0] == "ok" and cs[0] == "ok":
+            if type(cv[1]) is type(cs[1]) and same(cv[1], cs[1]):
+                ctx.count("value-held_assign_accepts")
+                ctx.sig("assign", b.kind, fineclass(v), "accept", tclass(cs[1]))
+                return
+            key = "assign/%s/%s/stored=%s,validate=%s" % (b.kind, cls, tclass(cs[1]), tclass(cv[1]))
+            if type(cv[1]) is type(cs[1]):
+                key += "/value-differs"
+        elif cv[0] == cs[0] and (cv[0] == "TE" or cv[1] == cs[1]):
+            ctx.count("value-held_assign_rejects")
+            ctx.sig("assign", b.kind, fineclass(v), oname(cs))
+            return
+        else:
+            key = "assign/%s/%s/setattr=%s,validate=%s" % (b.kind, cls, oname(cs), oname(cv))
+        self.viol(key, b, vid, cls, v,
+                  "assignment: %s%s, CTrait.validate on the same state: %s%s"
+                  % (oname(cs), " -> " + short(cs[1], 50) if cs[0] == "ok" else "",
+                     oname(cv), " -> " + short(cv[1], 50) if cv[0] == "ok" else ""),
+                  {"setattr": oname(cs), "validate": oname(cv)})
 
     def judge_diff(self, b, vid, cls, v, c, p, law_violated):
         ctx = self.ctx
@@ -982,6 +1122,11 @@ def atomic_specs(full):
         # own stratum: a class None is an instance of, with None disallowed
         ("Instance", "object", False, "no"),
         ("Supports", "X", True), ("Supports", "X", False),
+        # classes whose isinstance() verdict is individual: runtime-checkable protocol
+        # with a data member, metaclass __instancecheck__
+        ("Instance", "Labelled", True, "no"), ("Instance", "Labelled", False, "no"),
+        ("Instance", "Open", True, "no"), ("Instance", "Open", False, "no"),
+        ("Instance", "Labelled", True, "yes"),
     ]
     for t in inst:
         S.append((t, True))
@@ -1055,6 +1200,11 @@ def fixed_compounds():
         ("Trait", "none", ("py", "bool"), ("py", "int")), ("Trait", "none", ("py", "tuple"), ("py", "list")),
         ("Trait", "0", ("Trait1", ("val", "0")), St), ("Trait", "''", ("Trait1", ("val", "''")), I),
         ("Trait", "0", ("Trait1", ("val", "0.0")), ("Trait1", ("val", "0"))),
+        ("Either", ("Instance", "Labelled", False, "no"), ("Instance", "Open", False, "no")),
+        ("Either", St, ("Instance", "Open", True, "no")), ("Trait", "none", ("cls", "Labelled"), ("py", "int")),
+        ("Either", ("Enum", "items:str-mixin-class"), I), ("Either", Fl, ("Enum", "items:own-eq")),
+        ("Either", ("Enum", "items:np-str"), ("Enum", "items:int-enum-members")),
+        ("Tuple", ("Enum", "items:str-subclass"), ("Instance", "Labelled", True, "no")),
     ]
     return out
 
@@ -1138,6 +1288,7 @@ def member_pool():
               ("Instance", "str", True, "no"), ("Instance", "Sized", False, "no"),
               ("Instance", "X", False, "yes"), ("Instance", "X", True, "yes"),
               ("Instance", "X", False, "default"), ("Supports", "X", False),
+              ("Instance", "Labelled", False, "no"), ("Instance", "Open", True, "no"),
               ("This", True), ("This", False), ("Callable", None), ("Callable", False),
               ("Callable", True)):
         P.append((t, 2))
@@ -1386,6 +1537,94 @@ def copied_case(ctx, ck, i, spec, modes, values, nder):
         ctx.end()
 
 
+# --------------------------------------------------------------------------
+# value-held stratum: the trait is installed on an object under the name the
+# validators are called with, a valid value is assigned, and the sweep is made
+# on that state (validators must not depend on what the attribute holds)
+def holder_for(spec, how):
+    t = mk(spec)
+    if how == "class":
+        return type("HeldHolder", (LAT.Holder,), {"x": t})()
+    obj = LAT.Holder()
+    obj.add_trait("x", t)
+    return obj
+
+
+def held_case(ctx, ck, i, spec, how, nheld, nassign, values):
+    if not ctx.begin("held:%d" % i, {"spec": spec, "trait_defined_on": how}):
+        return
+    try:
+        try:
+            b0 = Built(spec, None)
+            obj = holder_for(spec, how)
+            b1 = Built(spec, b0.fast, ct=obj.trait("x"))
+        except Exception:
+            ctx.count("unbuildable_specs")
+            return
+        rng = ctx.rng("held", i)
+        entries = [e for e in ck.values if not (b1.skip_bigidx and e[0] in ck.bigidx)]
+        # selection only (nothing is judged here): values both paths accept on the
+        # fresh object, by exact type; types that also have refused values first
+        acc, refused = {}, set()
+        for e in entries:
+            c = outcome(b1.ct.validate, obj, e[2])
+            p = outcome(b1.pyv, obj, e[2]) if b1.has_py else c
+            if classify(c, p) == "agree-accept":
+                acc.setdefault(type(e[2]), []).append(e)
+            elif c[0] != "ok":
+                refused.add(type(e[2]))
+        split = [t for t in acc if t in refused]
+        whole = [t for t in acc if t not in refused]
+        rng.shuffle(split)
+        rng.shuffle(whole)
+        picks = split[:max(1, nheld - 1)]
+        picks += whole[:nheld - len(picks)]
+        picks += split[len(picks):nheld]
+        if not picks:
+            ctx.count("value-held_specs_accepting_nothing")
+            return
+        ctx.count("specs")
+        ctx.count("value-held_specs")
+        ctx.count("value-held_specs/" + how)
+        ck.obj, ck.keytag, ck.twin, ck.twin_cache = obj, "value-held", b0, {}
+        for t in picks[:nheld]:
+            hvid, hcls, h = rng.choice(acc[t])
+            try:
+                setattr(obj, "x", h)
+            except Exception:  # noqa: BLE001 - judged by the assignment sub-check, not here
+                ctx.count("value-held_setup_refused")
+                continue
+            ctx.count("value-held_histories")
+            if t in refused:
+                ctx.count("value-held_histories_of_split_type")
+            ck.held_type = type(obj.__dict__.get("x", h))
+            mates = [e for e in entries if type(e[2]) is ck.held_type]
+            if values is None:
+                sweep = entries
+            else:
+                ids = {e[0] for e in mates}
+                sweep = [e for e in entries if e[0] in values or e[0] in ids]
+            n = 0
+            for vid, cls, v in sweep:
+                ck.pair(b1, vid, cls, v)
+                n += 1
+            ctx.count("pairs", n)
+            ctx.count("value-held_pairs", n)
+            # assignments: the mates of the held value, then a random walk
+            walk = list(mates) + rng.sample(entries, min(nassign, len(entries)))
+            rng.shuffle(walk)
+            for vid, cls, v in walk:
+                if v is Undefined:
+                    # assigning Undefined is the documented way of storing it without
+                    # validation; it is not a value the validators are asked about
+                    ctx.count("value-held_assignments_of_Undefined_skipped")
+                    continue
+                ck.assign(b1, vid, cls, v)
+    finally:
+        ck.obj, ck.keytag, ck.twin, ck.twin_cache, ck.held_type = ck.base_obj, "", None, {}, None
+        ctx.end()
+
+
 def setup_adaptation():
     mgr = AdaptationManager()
     mgr.register_factory(LAT.XAdapter, LAT.Src, LAT.X)
@@ -1451,13 +1690,22 @@ def run(ctx):
     for i, scen in enumerate(MAP_SCENARIOS):
         if ctx.mine(i + 13):
             map_live_case(ctx, ck, scen, 16)
-    # ---- copy stratum (own keys: sub-check@copied:<how>/...) ---------------------------
-    cat = [sp for sp, _ in atomic_specs(False)] + fixed_compounds() + nested_mixed_compounds()
     reps, seen = set(), set()
     for vid, cls, v in ck.values:
         if cls not in seen:
             seen.add(cls)
             reps.add(vid)
+    # ---- value-held stratum (own keys: sub-check@value-held/...) ----------------------
+    held = [sp for sp, fast in atomic_specs(full) if fast] + fixed_compounds()
+    for i, spec in enumerate(held):
+        if not ctx.mine(i + 9):
+            continue
+        if ctx.quick and spec[0] in ("Either", "Trait") and (i + ctx.seed) % 3:
+            continue
+        held_case(ctx, ck, i, spec, ("class", "instance")[i % 2], ctx.scale(2, 8), ctx.scale(10, 60),
+                  reps if ctx.quick else None)
+    # ---- copy stratum (own keys: sub-check@copied:<how>/...) ---------------------------
+    cat = [sp for sp, _ in atomic_specs(False)] + fixed_compounds() + nested_mixed_compounds()
     for i, spec in enumerate(cat):
         if not ctx.mine(i + 2):
             continue
